@@ -123,6 +123,16 @@ CLAIMS = {
              "computation is checked under C01.g. NOT decided: 'within two base units' and multi-batch proportionality (numeric).",
         technique="guard-edge reachability on field assignments + operand-role/complement shape matching",
         ref="6/C06"),
+    "C02": dict(
+        text="Decides the structural clauses: each of the three bond entry points (specialised by constant propagation) adds the payment "
+             "coin's amount to the pool of the right token, preserves the other, and asks the planner to place that same amount; Delegate "
+             "pairs plan[i] with validators[i] (same index expression) in the payment denom, validators come only from the registry query, "
+             "empty answer is an error; the undelegated claim is the sum of exactly the two products subtracted from the pools and "
+             "Undelegate pairs planner output i with the hub's own delegation i; spend-site inventory over all 15 variants (Send only on "
+             "withdraw, Delegate only on bond, no funds on any WasmMsg); resync dominates every STATE write of every pricing handler. NOT "
+             "decided: booked <= delegated over histories; sum of Delegate amounts = payment (C12 arithmetic).",
+        technique="per-variant specialised exploration + ledger-delta shapes + index-expression pairing + dominance on MIR",
+        ref="6/C02"),
 }
 
 NA = {
